@@ -80,9 +80,9 @@ mix = F("mix", Opt, Opt, Opt)
 EMPTY = z3.Const("EMPTY", Opt)
 mixv = F("mixv", Val, Val, Val)     # value-level merge of two dict nodes
 single = F("single", Key, Val, Opt)  # set_dotted_key(k, v, {})
-sub = F("sub", Opt, Opt, B)          # pruning order
+sub = F("sub", Opt, Opt, B)          # "below": presence-monotone order of law L2 (prunings are instances)
 shadow = F("shadow", Opt, Key, B)
-noshadow = F("noshadow", Opt, Opt, B)   # no key of the second dictionary is shadowed by a scalar of the first
+noshadow = F("noshadow", Opt, Opt, B)   # no kind conflict: wherever both hold a key both hold a section or both hold a value
 resolve_ok = F("resolve_ok", Val, Opt, B)
 resolve_val = F("resolve_val", Val, Opt, Val)
 resolve_exc = F("resolve_exc", Val, Opt, Exc)
@@ -296,16 +296,11 @@ def opt_axioms():
                                           blocked(o, k) == blocked(o2, k))),
                         patterns=[z3.MultiPattern(get(o, p), get(o2, p), anc(p, k), has(o, k)),
                                   z3.MultiPattern(get(o, p), get(o2, p), anc(p, k), has(o2, k))]))
-    # pruning order: everything present below is present above with the same kind; leaves equal
+    # the order of law L2 ("below"): every key present in o2 is present in o; values of keys outside the reported set are unconstrained
+    # (a pruning is the special case the statement of C03 uses)
     ax.append(z3.ForAll([o], sub(o, o), patterns=[sub(o, o)]))
     ax.append(z3.ForAll([o2, o, k], z3.Implies(z3.And(sub(o2, o), has(o2, k)), has(o, k)), patterns=[z3.MultiPattern(sub(o2, o), has(o2, k))]))
     ax.append(z3.ForAll([o2, o, k], z3.Implies(z3.And(sub(o2, o), z3.Not(has(o, k))), z3.Not(has(o2, k))), patterns=[z3.MultiPattern(sub(o2, o), has(o, k))]))
-    ax.append(z3.ForAll([o2, o, k], z3.Implies(z3.And(sub(o2, o), has(o2, k)),
-                                               z3.And(isdict(get(o2, k)) == isdict(get(o, k)),
-                                                      z3.Implies(z3.Not(isdict(get(o, k))), get(o2, k) == get(o, k)))),
-                        patterns=[z3.MultiPattern(sub(o2, o), get(o2, k))]))
-    ax.append(z3.ForAll([o2, o, k], z3.Implies(z3.And(sub(o2, o), blocked(o2, k)), blocked(o, k)),
-                        patterns=[z3.MultiPattern(sub(o2, o), blocked(o2, k))]))
     # shadow(b,k): a proper prefix of k is present in b and is not a dict
     # (only the two directions the proofs use)
     ax.append(z3.ForAll([b, p, k], z3.Implies(z3.And(anc(p, k), has(b, p), z3.Not(isdict(get(b, p)))), shadow(b, k)),
@@ -337,6 +332,8 @@ def opt_axioms():
                         patterns=[z3.MultiPattern(sub(o2, o), mix(a, o2), mix(a, o))]))
     ax.append(z3.ForAll([o, a, k], z3.Implies(z3.And(noshadow(o, a), has(a, k)), z3.Not(shadow(o, k))),
                         patterns=[z3.MultiPattern(noshadow(o, a), has(a, k))]))
+    ax.append(z3.ForAll([o, a, k], z3.Implies(z3.And(noshadow(o, a), has(a, k), has(o, k)), isdict(get(o, k)) == isdict(get(a, k))),
+                        patterns=[z3.MultiPattern(noshadow(o, a), has(a, k), has(o, k))]))
     ax.append(z3.ForAll([a], mix(a, EMPTY) == a, patterns=[mix(a, EMPTY)]))
     ax.append(z3.ForAll([a], mix(EMPTY, a) == a, patterns=[mix(EMPTY, a)]))
     # single
